@@ -479,9 +479,67 @@ def execute(plan: dict, root: str) -> dict:
 
 
 # --------------------------------------------------------------------------- shrinking
+def _drop_creator(plan, idx):
+    """Remove the operation that creates an evaluator (or aggregator) together with every
+    operation that uses it, renumbering the later ones."""
+    c = copy.deepcopy(plan)
+    ops = c["ops"]
+    kind = ops[idx][0]
+    is_ev = kind in ("new_ev", "save_load")
+    # index of the created object
+    n = sum(1 for o in ops[:idx] if (o[0] in ("new_ev", "save_load")) == is_ev and o[0] in ("new_ev", "save_load", "new_agg") and ((o[0] == "new_agg") != is_ev))
+    out = []
+    dropped_aggs = set()
+    agg_counter = 0
+    for i, o in enumerate(ops):
+        o = list(o)
+        if i == idx:
+            if o[0] == "new_agg":
+                agg_counter += 1
+            continue
+        if is_ev:
+            if o[0] in ("eval", "keys", "set_times", "save_load"):
+                if o[1] == n:
+                    if o[0] == "save_load":
+                        return None  # would cascade; keep it simple
+                    continue
+                if o[1] > n:
+                    o[1] -= 1
+            elif o[0] == "new_agg":
+                if o[1] == n:
+                    dropped_aggs.add(agg_counter)
+                    agg_counter += 1
+                    continue
+                if o[1] > n:
+                    o[1] -= 1
+                agg_counter += 1
+            elif o[0] in ("agg_eval", "agg_stat"):
+                if o[1] in dropped_aggs:
+                    continue
+                o[1] -= sum(1 for d in dropped_aggs if d < o[1])
+        else:
+            if o[0] == "new_agg":
+                agg_counter += 1
+            if o[0] in ("agg_eval", "agg_stat"):
+                if o[1] == n:
+                    continue
+                if o[1] > n:
+                    o[1] -= 1
+        out.append(o)
+    c["ops"] = out
+    if not any(o[0] in ("new_ev",) for o in out):
+        return None
+    return c
+
+
 def candidates(plan):
     P = copy.deepcopy
     ops = plan["ops"]
+    for i in reversed(range(len(ops))):
+        if ops[i][0] in ("new_ev", "save_load", "new_agg"):
+            c = _drop_creator(plan, i)
+            if c is not None:
+                yield f"drop creator op {i} {ops[i][0]} and its users", c
     for i in reversed(range(len(ops))):
         if ops[i][0] in ("new_ev", "save_load", "new_agg"):
             continue  # ids of later operations depend on them
